@@ -22,6 +22,15 @@ def main():
         print("no check for %s: %s" % (pid, e))
         sys.exit(2)
     rep = Report(pid, args.tier, seed)
+    if args.tier == "thorough" and not os.environ.get("VERIF_SELFTEST_CHILD"):
+        from . import selftest
+        st = selftest.run_selftest(pid)
+        rep.extra["mutants_total"] = len(st)
+        rep.extra["mutants_detected"] = sum(1 for x in st if x["status"] == "detected")
+        rep.extra["mutants"] = st
+        for x in st:
+            if x["status"] != "detected" and x.get("expected_by_meta"):
+                print("SELFTEST-MISS: property=%s seed=%s status=%s" % (pid, x["seed"], x["status"]))
     try:
         code = mod.run(rep, args.tier, args.replay)
     except facts.FactsError as e:
